@@ -44,6 +44,13 @@ type c12Case struct {
 	// (suite 0 - all algorithms None, whose encoding is full of zero bytes -
 	// and fillers), so that record and chunk boundaries fall at every offset
 	AdvShift int `json:"advshift,omitempty"`
+	// LenByte: payload-length byte of algorithm payload LenPayload in the Open
+	// Session Response (0: the specified 8)
+	LenByte    int `json:"lenbyte,omitempty"`
+	LenPayload int `json:"lenpayload,omitempty"`
+	// Warmup: this many session-less commands are sent on the connection before
+	// the establishment (a long-lived connection)
+	Warmup int `json:"warmup,omitempty"`
 }
 
 func c12Adv(c c12Case) []byte {
@@ -113,6 +120,17 @@ func c12One(c c12Case, r *rep.R) (string, string) {
 		w.BMC.Log = nil
 	}
 	w.BMC.Cfg.Announce = c.Announce
+	if c.LenByte != 0 {
+		w.BMC.Cfg.AnnounceLen[c.LenPayload] = byte(c.LenByte)
+	}
+	for i := 0; i < c.Warmup; i++ {
+		if _, err := w.Conn.GetSystemGUID(w.Ctx); err != nil {
+			return "C12/warmup", fmt.Sprintf("session-less command %d on the connection failed: %v", i+1, err)
+		}
+	}
+	if c.Warmup > 0 {
+		w.BMC.Log = nil
+	}
 	for k := 0; k < 3; k++ {
 		w.BMC.Cfg.AnnounceWildcard[k] = c.Wildcard&(1<<k) != 0
 	}
@@ -204,6 +222,18 @@ func c12One(c c12Case, r *rep.R) (string, string) {
 	if c.Wildcard&4 != 0 {
 		announced.Conf = 0xFF
 	}
+	if c.LenByte != 0 && c.LenByte != 8 {
+		// the algorithm byte still confirms the proposal; what the library makes
+		// of the odd length byte is its business (the property speaks of
+		// algorithms) - but it must not panic (checked above), and a session it
+		// returns must be for the proposed suite (checked below)
+		if sess == nil {
+			if r != nil {
+				r.Outcome("error-on-unconfirmed-triple")
+			}
+			return "", ""
+		}
+	}
 	if sess != nil {
 		got := ref.Suite{Auth: byte(sess.AuthenticationAlgorithm), Integ: byte(sess.IntegrityAlgorithm), Conf: byte(sess.ConfidentialityAlgorithm)}
 		if announced != *want {
@@ -245,7 +275,7 @@ func runC12(r *rep.R) {
 			return
 		}
 		key, msg := c12One(c, r)
-		r.Eval(rep.H(fmt.Sprintf("%v|%d|%d|%v|%d|%v|%d", c.Prefs, c.Adv, c.AdvOrder, c.Announce, c.Wildcard, c.First, c.AdvShift)), true)
+		r.Eval(rep.H(fmt.Sprintf("%v|%d|%d|%v|%d|%v|%d|%d|%d|%d", c.Prefs, c.Adv, c.AdvOrder, c.Announce, c.Wildcard, c.First, c.AdvShift, c.LenByte, c.LenPayload, c.Warmup)), true)
 		r.Trace()
 		if r.WantSample() {
 			r.Sample(c)
@@ -325,6 +355,19 @@ func runC12(r *rep.R) {
 				do(c12Case{Prefs: []int{p}, Adv: 0xF, Announce: &a})
 			}
 		}
+	}
+	// every value of the payload-length byte of each algorithm payload
+	for _, p := range []int{0, 1} {
+		for k := 0; k < 3; k++ {
+			for lb := 1; lb < 256; lb++ {
+				do(c12Case{Prefs: []int{p}, Adv: 0xF, LenByte: lb, LenPayload: k})
+			}
+		}
+	}
+	// establishment on a connection that has carried many session-less commands
+	for _, n := range []int{63, 64, 65, 130, 260} {
+		do(c12Case{Prefs: nil, Adv: 0x3, Warmup: n})
+		do(c12Case{Prefs: []int{1, 0}, Adv: 0x2, Warmup: n})
 	}
 	// part B': zero-length (wildcard) algorithm payloads in the response
 	for _, p := range []int{0, 1, 2} {
